@@ -446,6 +446,7 @@ type c15Sender struct {
 	calls   []c15Call
 	gate    chan struct{} // when non-nil: GET_PROVIDERS requests wait for it
 	valGate chan struct{} // when non-nil: GET_VALUE requests wait for it
+	fnGate  chan struct{} // when non-nil: FIND_NODE requests wait for it
 }
 
 func (s *c15Sender) log(c c15Call) {
@@ -460,6 +461,8 @@ func (s *c15Sender) SendRequest(ctx context.Context, p peer.ID, m *pb.Message) (
 	gate := s.gate
 	if m.GetType() == pb.Message_GET_VALUE {
 		gate = s.valGate
+	} else if m.GetType() == pb.Message_FIND_NODE {
+		gate = s.fnGate
 	} else if m.GetType() != pb.Message_GET_PROVIDERS {
 		gate = nil
 	}
@@ -997,8 +1000,12 @@ func c15CaseFindPeer(r *vfRand, bnd []c15Cand, combo int) c15Case {
 	target := c15PeerID(r)
 	sc := c15Script{wanSeeds: c15Seeds(r, (combo&1)*(1+r.Intn(2))), lanSeeds: c15Seeds(r, ((combo>>1)&1)*(1+r.Intn(2)))}
 	var wResp, lResp []c15Addr
+	order := r.Intn(3)     // arrival order of the inner results in the dual call: 0 unforced, 1 LAN first, 2 WAN first
 	if (combo>>2)&1 == 1 { // the WAN seeds know the target
 		wResp = pool.list(r.Intn(4))
+		if r.Chance(60) {
+			wResp = append(wResp, pool.public4())
+		}
 		sc.wanReply.closer = []peer.AddrInfo{{ID: target, Addrs: c15Maddrs(wResp)}}
 	}
 	if (combo>>3)&1 == 1 {
@@ -1008,7 +1015,7 @@ func c15CaseFindPeer(r *vfRand, bnd []c15Cand, combo int) c15Case {
 		}
 		sc.lanReply.closer = []peer.AddrInfo{{ID: target, Addrs: c15Maddrs(lResp)}}
 	}
-	run := func(f func(n *c15Node, ctx context.Context) (peer.AddrInfo, error)) ([]int, error, error) {
+	run := func(f func(n *c15Node, ctx context.Context) (peer.AddrInfo, error), ord int) ([]int, error, error) {
 		n, err := c15NewNode(r)
 		if err != nil {
 			return nil, nil, err
@@ -1019,25 +1026,55 @@ func c15CaseFindPeer(r *vfRand, bnd []c15Cand, combo int) c15Case {
 		}
 		ctx, cancel := context.WithTimeout(context.Background(), c15Timeout)
 		defer cancel()
+		if ord != 0 {
+			// the second side's lookup starts only after the first side's lookup has spoken to its seeds and the
+			// target (the two inner DHTs share the host's peerstore: without this the first result may already
+			// contain what the second one learns)
+			firstS, secondS, firstCalls := n.lan, n.wan, len(sc.lanSeeds)
+			if len(sc.lanReply.closer) > 0 {
+				firstCalls++
+			}
+			if ord == 2 {
+				firstS, secondS, firstCalls = n.wan, n.lan, len(sc.wanSeeds)
+				if len(sc.wanReply.closer) > 0 {
+					firstCalls++
+				}
+			}
+			if len(firstS.replies) == 0 {
+				firstCalls = 0
+			}
+			g := make(chan struct{})
+			secondS.fnGate = g
+			go func() {
+				defer close(g)
+				for ctx.Err() == nil {
+					if len(firstS.snapshot()) >= firstCalls {
+						time.Sleep(30 * time.Millisecond)
+						return
+					}
+					time.Sleep(time.Millisecond)
+				}
+			}()
+		}
 		pi, e := f(n, ctx)
 		return pool.ids(pi.Addrs), e, nil
 	}
-	wA, wErr, err := run(func(n *c15Node, ctx context.Context) (peer.AddrInfo, error) { return n.d.WAN.FindPeer(ctx, target) })
+	wA, wErr, err := run(func(n *c15Node, ctx context.Context) (peer.AddrInfo, error) { return n.d.WAN.FindPeer(ctx, target) }, 0)
 	if err != nil {
 		return c15Case{fail: err.Error()}
 	}
-	lA, lErr, err := run(func(n *c15Node, ctx context.Context) (peer.AddrInfo, error) { return n.d.LAN.FindPeer(ctx, target) })
+	lA, lErr, err := run(func(n *c15Node, ctx context.Context) (peer.AddrInfo, error) { return n.d.LAN.FindPeer(ctx, target) }, 0)
 	if err != nil {
 		return c15Case{fail: err.Error()}
 	}
-	dA, dErr, err := run(func(n *c15Node, ctx context.Context) (peer.AddrInfo, error) { return n.d.FindPeer(ctx, target) })
+	dA, dErr, err := run(func(n *c15Node, ctx context.Context) (peer.AddrInfo, error) { return n.d.FindPeer(ctx, target) }, order)
 	if err != nil {
 		return c15Case{fail: err.Error()}
 	}
 	term := fmt.Sprintf("CFindPeer %s %s %s %s %s %s %s %s", c15AddrsCoq(wResp), c15AddrsCoq(lResp), c15NatList(wA), c15ErrCoq(wErr),
 		c15NatList(lA), c15ErrCoq(lErr), c15NatList(dA), c15NatList(c15Sentinels(dErr)))
-	return c15Case{coq: term, sig: fmt.Sprintf("findpeer|w=%d/%v|l=%d/%v|d=%d", len(wA), c15Sentinels(wErr), len(lA), c15Sentinels(lErr), len(dA)),
-		desc: map[string]any{"kind": "findpeer", "wan_seeds": len(sc.wanSeeds), "lan_seeds": len(sc.lanSeeds), "wan_resp": wResp, "lan_resp": lResp,
+	return c15Case{coq: term, sig: fmt.Sprintf("findpeer|w=%d/%v|l=%d/%v|d=%d|o=%d", len(wA), c15Sentinels(wErr), len(lA), c15Sentinels(lErr), len(dA), order),
+		desc: map[string]any{"kind": "findpeer", "order": order, "wan_seeds": len(sc.wanSeeds), "lan_seeds": len(sc.lanSeeds), "wan_resp": wResp, "lan_resp": lResp,
 			"wan": []any{wA, c15Sentinels(wErr)}, "lan": []any{lA, c15Sentinels(lErr)}, "dual": []any{dA, c15Sentinels(dErr)}}}
 }
 
